@@ -246,6 +246,13 @@ class Enc:
         v = self.operand(st, rhs)
         if v is not None:
             return v
+        m = re.match(r"^((?:copy |move )?\S+) as [iu](?:8|16|32|64|128|size) \(IntToInt\)$", rhs)
+        if m:
+            # integer-to-integer cast: the mathematical value is kept (wrap-around of out-of-range
+            # values is not modelled; casts feed comparisons of small lengths and counts here)
+            a = self.operand(st, m.group(1))
+            if a is not None and z3.is_int(a):
+                return a
         m = re.match(r"^Not\((.*)\)$", rhs)
         if m:
             a = self.operand(st, m.group(1))
